@@ -308,6 +308,50 @@ def _(vm, a, ci):
     return err(vm.call_value(a[1], [r.fields[0]])) if r.variant == 1 else r
 
 
+@path('Result::and')
+def _(vm, a, ci):
+    r = conc(vm, a[0])
+    return a[1] if r.variant == 0 else r
+
+
+@path('Result::or')
+def _(vm, a, ci):
+    r = conc(vm, a[0])
+    return a[1] if r.variant == 1 else r
+
+
+@path('Result::map_or')
+def _(vm, a, ci):
+    r = conc(vm, a[0])
+    return vm.call_value(a[2], [r.fields[0]]) if r.variant == 0 else a[1]
+
+
+@path('Result::map_or_else')
+def _(vm, a, ci):
+    r = conc(vm, a[0])
+    return vm.call_value(a[2], [r.fields[0]]) if r.variant == 0 else vm.call_value(a[1], [r.fields[0]])
+
+
+@path('Result::is_ok_and', 'Result::is_err_and')
+def _(vm, a, ci):
+    r = conc(vm, a[0]); want = 0 if ci.method == 'is_ok_and' else 1
+    return vm.call_value(a[1], [r.fields[0]]) if r.variant == want else False
+
+
+@path('Result::inspect', 'Result::inspect_err', 'Option::inspect')
+def _(vm, a, ci):
+    r = conc(vm, a[0])
+    hit = (r.variant == 1) if (ci.method == 'inspect_err' or (ci.selfty or '').startswith('Option')) else (r.variant == 0)
+    if hit: vm.call_value(a[1], [Ref(Cell(r.fields[0]))])
+    return r
+
+
+@path('Option::is_none_or')
+def _(vm, a, ci):
+    o = conc(vm, a[0])
+    return True if o.variant == 0 else vm.call_value(a[1], [o.fields[0]])
+
+
 @path('Result::and_then')
 def _(vm, a, ci):
     r = conc(vm, a[0])
